@@ -242,7 +242,10 @@ def nibabel_image_to_precomputed(img,
     shape = img.header.get_data_shape()
 
     proxy = img.dataobj
-    if ignore_scaling:
+    # An image built in memory (e.g. an RGB volume split into channels) holds
+    # a plain array, which has no header scaling
+    has_header_scaling = hasattr(proxy, "_slope")
+    if ignore_scaling and has_header_scaling:
         proxy._slope = 1.0
         proxy._inter = 0.0
 
@@ -289,10 +292,17 @@ def nibabel_image_to_precomputed(img,
             input_min = 0
         postscaling_slope = (output_max - output_min) / (input_max - input_min)
         postscaling_inter = output_min - input_min * postscaling_slope
-        prescaling_slope = proxy.slope
-        prescaling_inter = proxy.inter
-        proxy._slope = prescaling_slope * postscaling_slope
-        proxy._inter = prescaling_inter * postscaling_slope + postscaling_inter
+        if has_header_scaling:
+            prescaling_slope = proxy.slope
+            prescaling_inter = proxy.inter
+            proxy._slope = prescaling_slope * postscaling_slope
+            proxy._inter = (prescaling_inter * postscaling_slope
+                            + postscaling_inter)
+        else:
+            img = nibabel.Nifti1Image(
+                np.asanyarray(proxy) * postscaling_slope + postscaling_inter,
+                affine)
+            proxy = img.dataobj
         # nibabel does not convert to float64 if the combined scaling turns
         # out to be the identity (slope 1, intercept 0)
         zero_index = tuple(0 for _ in shape)
